@@ -73,7 +73,10 @@ Definition obs_eqb (a b : obs) : bool :=
 
 (* The property on what the implementation showed:
    - after a commit that returned without a warning the remote's head of that branch is the new commit;
-   - after every step, every head the replica shows is a head the remote had at that or an earlier time. *)
+   - after every step, every head the replica shows is a head the remote had at that or an earlier time;
+   - after a successful pull (the replica's transaction start fetched the remote's refs and dropped the refs the remote
+     no longer has), every head the replica shows is a head the remote has at that time: a branch deleted on the remote
+     is not shown any more. *)
 Fixpoint oracle_from (hist : list (N * N)) (es : list rstep) (o : list (heads * heads)) : bool :=
   match es, o with
   | [], [] => true
@@ -81,6 +84,7 @@ Fixpoint oracle_from (hist : list (N * N)) (es : list rstep) (o : list (heads * 
     let hist' := rem ++ hist in
     (match e with RCommit b c => match get_head b rem with Some c' => c' =? c | None => false end | _ => true end)
     && heads_real rep hist'
+    && (match e with RPull => heads_real rep rem | _ => true end)
     && oracle_from hist' es' o'
   | _, _ => false
   end.
